@@ -92,6 +92,9 @@ type v4sys struct {
 	hook     func(v explore.Viol, class string, trace []string)
 	trace    []string
 	now      func() time.Time // time source
+	// tookOver: ACKs by which a MAC was given the address of ANOTHER MAC's lease-table entry that
+	// carried the very circuit-id of the request (witness marker for the circuit-id class)
+	tookOver []string
 	noStale  bool             // leases are born expired (Engine B "expired" scenarios): skip the expired-not-removed check
 }
 
@@ -205,6 +208,12 @@ func (s *v4sys) Ops() []string {
 				if v.offer != "" {
 					add("rREQ-sel/" + c)
 				}
+				if v.leased != "" {
+					add("rREQ-renew/" + c) // the same client renewing from behind this (possibly different) circuit-id
+				}
+				if s.otherAddr(n) != "" {
+					add("rREQ-other/" + c) // opt50 = another client's address, arriving on this circuit-id
+				}
 			}
 		}
 	}
@@ -213,7 +222,11 @@ func (s *v4sys) Ops() []string {
 }
 
 func (s *v4sys) v(kind, site, f string, a ...any) {
-	s.viols = append(s.viols, explore.Viol{Kind: kind, Site: site, Detail: fmt.Sprintf(f, a...)})
+	d := fmt.Sprintf(f, a...)
+	if len(s.tookOver) > 0 && (kind == "O1-ack-leased-to-other" || kind == "O2-two-bindings") {
+		d += " {line take-over earlier: " + strings.Join(s.tookOver, "; ") + "}"
+	}
+	s.viols = append(s.viols, explore.Viol{Kind: kind, Site: site, Detail: d})
 }
 
 // held reports whether lease-table entry l still legitimately reserves its address:
@@ -282,7 +295,9 @@ func (s *v4sys) msg(n, kind, circuit string) string {
 		m.Type, target = dhcpv4.MessageTypeRequest, v.prev
 	case "REQ-renew":
 		m.Type, target = dhcpv4.MessageTypeRequest, v.leased
-		m.CIAddr = net.ParseIP(target)
+		if !relayed {
+			m.CIAddr = net.ParseIP(target) // (relayed: broadcast REBINDING-style REQUEST naming the address in option 50)
+		}
 	case "REQ-gw":
 		m.Type, target = dhcpv4.MessageTypeRequest, v4Gw
 	case "REQ-net":
@@ -390,6 +405,11 @@ func (s *v4sys) msg(n, kind, circuit string) string {
 					s.v("O1-ack-leased-to-other", site, "%s was ACKed %s which %s was acknowledged for (%v left) and never gave up; the server no longer has %s's lease", n, x, on, ov.boundUntil.Sub(now), on)
 				}
 			}
+			for _, l := range pre {
+				if mc != "" && l.CircuitID == mc && l.Key != myKey && ip4s(l.IP) == x {
+					s.tookOver = append(s.tookOver, fmt.Sprintf("%s was ACKed %s from %s's table entry carrying circuit %s", n, x, s.who(l.Key), mc))
+				}
+			}
 			if own != nil && ip4s(own.IP) != x {
 				s.v("O4-renew-changed", site, "%s holds an unexpired lease on %s but was ACKed %s", n, ip4s(own.IP), x)
 			}
@@ -491,7 +511,7 @@ func (s *v4sys) Fingerprint() string {
 		ok = append(ok, fmt.Sprintf("%s/%s/%v", k, o.circuit, o.viaLine))
 	}
 	sort.Strings(ok)
-	fmt.Fprintf(&sb, "|offers=%v", ok)
+	fmt.Fprintf(&sb, "|offers=%v|tookover=%d", ok, len(s.tookOver))
 	var dl []string
 	for d := range s.declined {
 		dl = append(dl, d)
